@@ -47,6 +47,7 @@ func checkC07(c *Check) {
 		"github.com/cornelk/hashmap.HashMap is safe for concurrent use (library contract)",
 		"writes performed by callees of a goroutine closure on shared state are decided by the lock rule (C05 LOCKED-ACCESS) and by rule 4, not by rule 5",
 		"antlr.NewDFA / NewATNDeserializer / NewPredictionContextCache return fresh objects")
+	arrivalOrder(c, "ARRIVAL-ORDER")
 	reach, entries := compileReach(p)
 	if len(entries) < 6 {
 		c.Undecidedf("ANCHOR", "entries", "-", "compile/encoder entry points not found")
